@@ -97,10 +97,13 @@ Start ==
   /\ had' = [f \in cf.fans |-> [data |-> db[f].data, map |-> db[f].map \/ cf.cfgMap[f]]]
   /\ UNCHANGED <<pwm, mode, orig, db, faults, discarded>>
 
-\* Run 123-137: remember the fan's PWM value and control mode
+\* can the fan's PWM value be read back? (a command fan without getPwm cannot; configurations that do not say are readable)
+HasPwm(f) == IF "hasPwm" \in DOMAIN cf THEN cf.hasPwm[f] ELSE TRUE
+
+\* Run 123-137: remember the fan's PWM value and control mode (a value that cannot be read is remembered as 0)
 Capture(f) ==
   /\ Running /\ ph[f] = "Off"
-  /\ orig' = [orig EXCEPT ![f] = [pwm |-> pwm[f], mode |-> IF cf.hasMode[f] THEN mode[f] ELSE -1]]
+  /\ orig' = [orig EXCEPT ![f] = [pwm |-> IF HasPwm(f) THEN pwm[f] ELSE 0, mode |-> IF cf.hasMode[f] THEN mode[f] ELSE -1]]
   /\ ph' = [ph EXCEPT ![f] = "Wait"]
   /\ UNCHANGED <<pwm, mode, reg, mtx, ctx, proc, sigs, db, cnt, ana, faults, starts, discarded, had>>
 
